@@ -23,6 +23,7 @@ Oracle (independent of the model, on what the implementation did):
     lies more than 1/10 pixel inside the traversed rectangles is processed;
   * every process call hands over exactly the members of one meta tile that need work (all with an empty cache, the
     uncached ones with a partly filled cache, [main tile] with refresh_all), in tile_list order; no call when none does;
+  * TileWorkerPool.process puts the list into the queue exactly once however long the queue is full (oracle only);
   * the walker does not raise (finding C11-sliver, repaired: rectangles thinner than 2/10 pixel are generated on purpose);
     the progress file holds exactly the reported identifier.
 """
@@ -156,6 +157,9 @@ def build_task(spec):
     grid = build_grid(spec['grid'])
     tm = build_tm(grid, spec['meta'], spec.get('real_tm', False), spec.get('cached'))
     cov = build_cov(spec['cov'])
+    if spec.get('transform'):
+        # what SeedConfiguration.seed_tasks does with the configured coverage
+        cov = cov.transform_to(grid.srs)
     md = {'name': 'c11', 'cache_name': 'cache', 'grid_name': 'grid'}
     task = SeedTask(md, tm, list(spec['levels']), None, spec.get('refresh_all', True), cov)
     return task, grid
@@ -470,7 +474,7 @@ def edge_coords(rng, gs, axis):
 
 def gen_exact_cov(rng, gs):
     xs, ys = edge_coords(rng, gs, 0), edge_coords(rng, gs, 1)
-    kind = rng.choice(['bbox', 'bbox', 'bbox', 'tiny', 'full', 'poly', 'poly', 'multi', 'multipoly'])
+    kind = rng.choice(['bbox', 'bbox', 'bbox', 'tiny', 'full', 'poly', 'poly', 'bigpoly', 'bigpoly', 'multi', 'multipoly'])
 
     def bbox(tiny=False):
         for _ in range(50):
@@ -515,8 +519,26 @@ def gen_exact_cov(rng, gs):
                 return {'type': 'poly', 'shell': shell, 'holes': holes, 'srs': 3857}
         return bbox()
 
+    def bigpoly():
+        # a large part of the grid cut by a sloping edge: whole meta tiles are CONTAINED, their neighbours in the same
+        # row / the rows below only INTERSECT or lie outside
+        x0, y0, x1, y1 = gs['bbox']
+        w, h = x1 - x0, y1 - y0
+        a, b = rng.uniform(0.15, 0.95), rng.uniform(0.15, 0.95)
+        ya, yb = math.floor(y0 + a * h), math.floor(y0 + b * h)
+        if rng.random() < 0.5:      # lower part
+            shell = [[x0 - 9, y0 - 9], [x1 + 9, y0 - 9], [x1 + 9, ya], [x0 - 9, yb]]
+        else:                       # upper part
+            shell = [[x0 - 9, yb], [x1 + 9, ya], [x1 + 9, y1 + 9], [x0 - 9, y1 + 9]]
+        if rng.random() < 0.3:      # left / right part instead
+            xa, xb = math.floor(x0 + a * w), math.floor(x0 + b * w)
+            shell = [[x0 - 9, y0 - 9], [xa, y0 - 9], [xb, y1 + 9], [x0 - 9, y1 + 9]]
+        return {'type': 'poly', 'shell': shell, 'holes': [], 'srs': 3857}
+
     if kind == 'bbox':
         return bbox()
+    if kind == 'bigpoly':
+        return bigpoly()
     if kind == 'tiny':
         return bbox(tiny=True)
     if kind == 'full':
@@ -550,11 +572,61 @@ def gen_cached(rng):
     return [rng.choice([1, 2, 4, 8]), m, rng.randrange(1, m + 1)]
 
 
+def limit_levels(gs, cov, levels, budget=1800):
+    """drop the finest levels of a task whose coverage would need more than `budget` tiles"""
+    if cov['type'] == 'bbox':
+        b = cov['bbox']
+    elif cov['type'] == 'poly':
+        xs, ys = [p[0] for p in cov['shell']], [p[1] for p in cov['shell']]
+        b = [min(xs), min(ys), max(xs), max(ys)]
+    else:
+        b = gs['bbox']
+    g = gs['bbox']
+    w = max(1.0, min(b[2], g[2]) - max(b[0], g[0]))
+    h = max(1.0, min(b[3], g[3]) - max(b[1], g[1]))
+    total, keep = 0, []
+    for l in levels:
+        r = gs['res'][l]
+        total += (w / (r * gs['tile_size'][0]) + 1) * (h / (r * gs['tile_size'][1]) + 1)
+        if total > budget and keep:
+            break
+        keep.append(l)
+    return keep
+
+
 def gen_exact_spec(rng):
     gs = gen_exact_grid(rng)
+    cov = gen_exact_cov(rng, gs)
     return {'stream': 'exact', 'grid': gs, 'meta': list(rng.choice([(1, 1), (2, 2), (2, 2), (3, 2), (4, 4), (1, 3), (5, 1)])),
-            'levels': gen_levels(rng, len(gs['res'])), 'cov': gen_exact_cov(rng, gs),
+            'levels': limit_levels(gs, cov, gen_levels(rng, len(gs['res']))), 'cov': cov,
             'skip': rng.choice([0, 0, 0, 0, 1, 2, 3]), 'real_tm': rng.random() < 0.5, 'refresh_all': rng.random() < 0.4,
+            'cached': gen_cached(rng)}
+
+
+def gen_pyramid_spec(rng):
+    """regular pyramid, several levels below the first level that has whole meta tiles inside a large polygon cut by a
+    sloping edge: CONTAINED subtiles next to INTERSECTING ones with NONE tiles below them"""
+    t = rng.choice([4, 8, 4, 5])
+    n = rng.choice([3, 4, 4])
+    base = 10 * rng.choice([1, 2, 4])
+    res = [base * 2 ** (n - 1 - j) for j in range(n)]
+    k = rng.choice([1, 2])
+    x0, y0 = rng.randrange(-2000, 2000), rng.randrange(-2000, 2000)
+    gs = {'srs': 3857, 'bbox': [x0, y0, x0 + res[0] * t * k, y0 + res[0] * t * k], 'tile_size': [t, t], 'res': res,
+          'origin': rng.choice(['ll', 'ul'])}
+    w = h = res[0] * t * k
+    a, b = rng.uniform(0.2, 0.9), rng.uniform(0.2, 0.9)
+    ya, yb = math.floor(y0 + a * h), math.floor(y0 + b * h)
+    xa, xb = math.floor(x0 + a * w), math.floor(x0 + b * w)
+    shell = rng.choice([
+        [[x0 - 9, y0 - 9], [x0 + w + 9, y0 - 9], [x0 + w + 9, ya], [x0 - 9, yb]],
+        [[x0 - 9, yb], [x0 + w + 9, ya], [x0 + w + 9, y0 + h + 9], [x0 - 9, y0 + h + 9]],
+        [[x0 - 9, y0 - 9], [xa, y0 - 9], [xb, y0 + h + 9], [x0 - 9, y0 + h + 9]],
+        [[xa, y0 - 9], [x0 + w + 9, y0 - 9], [x0 + w + 9, y0 + h + 9], [xb, y0 + h + 9]]])
+    cov = {'type': 'poly', 'shell': shell, 'holes': [], 'srs': 3857}
+    levels = rng.choice([list(range(n)), list(range(1, n)), [n - 1], [0, n - 1]])
+    return {'stream': 'exact', 'grid': gs, 'meta': list(rng.choice([(1, 1), (1, 1), (2, 2), (2, 1)])),
+            'levels': levels, 'cov': cov, 'skip': 0, 'real_tm': rng.random() < 0.5, 'refresh_all': rng.random() < 0.5,
             'cached': gen_cached(rng)}
 
 
@@ -572,6 +644,34 @@ REAL_GRIDS = [
      3857, (1000000.1, 6000000.3, 1234567.8, 6543210.9)),
     ({'tile_grid': {'srs': 3857, 'tile_size': [512, 256], 'res_factor': 1.7, 'num_levels': 10}}, 4326, (-180, -85, 180, 85)),
 ]
+
+
+BEND_GRIDS = [
+    # (grid, coverage rectangles in EPSG:4326: thin strips whose edges bend in the grid SRS)
+    ({'tile_grid': {'srs': 25832, 'bbox': [-100000.0, 5400000.0, 1100000.0, 5700000.0], 'res': [2000, 400, 80, 20],
+                    'tile_size': [128, 128]}},
+     [(4.0, 50.0, 14.0, 50.1), (5.0, 50.2, 11.5, 50.35), (3.5, 49.9, 13.0, 50.0), (6.0, 50.6, 14.5, 50.7)]),
+    ({'tile_grid': {'srs': 3035, 'bbox': [2000000.0, 1000000.0, 7000000.0, 5500000.0], 'res': [10000, 2500, 500, 100],
+                    'tile_size': [128, 128]}},
+     [(18.0, 40.0, 30.0, 40.25), (-8.0, 38.0, 4.0, 38.2), (20.0, 58.0, 34.0, 58.2)]),
+    ({'tile_grid': {'srs': 25832, 'bbox': [-100000.0, 5400000.0, 1100000.0, 5700000.0], 'res': [1000, 250, 50],
+                    'tile_size': [256, 256], 'origin': 'nw'}},
+     [(4.5, 50.0, 13.5, 50.15), (5.0, 50.4, 14.0, 50.5)]),
+]
+
+
+def gen_bend_spec(rng):
+    """bbox coverage in EPSG:4326 on a UTM / LAEA grid, transformed to the grid SRS the way seed_tasks does; levels fine
+    enough for whole meta tiles to fit between the chord and the arc of the coverage's edges"""
+    gs, rects = rng.choice(BEND_GRIDS)
+    b = list(rng.choice(rects))
+    b[0] += rng.uniform(-0.3, 0.3)
+    b[2] += rng.uniform(-0.3, 0.3)
+    n = len(gs['tile_grid']['res'])
+    levels = rng.choice([[n - 1], [n - 2, n - 1], list(range(n))])
+    return {'stream': 'real', 'bend': True, 'transform': True, 'grid': gs, 'meta': list(rng.choice([(1, 1), (2, 2), (1, 1)])),
+            'levels': levels, 'cov': {'type': 'bbox', 'bbox': b, 'srs': 4326}, 'skip': 0, 'real_tm': rng.random() < 0.5,
+            'refresh_all': rng.random() < 0.5, 'cached': None}
 
 
 def gen_real_spec(rng):
@@ -599,7 +699,7 @@ def gen_real_spec(rng):
         levels.append(deepest)
     return {'stream': 'real', 'grid': gs, 'meta': list(rng.choice([(1, 1), (2, 2), (4, 4), (3, 2), (8, 8)])),
             'levels': sorted(levels), 'cov': cov, 'skip': rng.choice([0, 0, 0, 1, 2]), 'real_tm': rng.random() < 0.5,
-            'refresh_all': rng.random() < 0.4, 'cached': gen_cached(rng)}
+            'refresh_all': rng.random() < 0.4, 'cached': gen_cached(rng), 'transform': rng.random() < 0.6}
 
 
 # ----------------------------------------------------------------------------- exact geometry for the oracles
@@ -722,6 +822,7 @@ class TaskCheck(object):
                      {'task': spec, 'events_before': len(U.events) - 1})
         else:
             self.oracle_selection(U, geo, exact)
+            self.oracle_footprint(U, geo)
             runs += self.interruptions(U)
         self.emit_cases(runs, table, U, exact)
 
@@ -840,6 +941,89 @@ class TaskCheck(object):
                              dict(rep, tile=t, point=[float(px), float(py)], processed=len(pset)))
                     return
         ctx.count('completeness_required_tiles', checked)
+
+    def oracle_footprint(self, U, geo):
+        """bbox coverage given in another SRS: independent of mapproxy's bbox transformation.  The coverage rectangle is
+        sampled in ITS SRS (edges and interior), every sample is transformed on its own with pyproj; a meta tile of a
+        seeded level must be processed when a sample lies well inside it (and inside the meta tiles above it) and well
+        inside the bounding box of all transformed samples."""
+        ctx, spec, gc = self.ctx, self.spec, self.gc
+        c = spec['cov']
+        if c['type'] != 'bbox' or not spec.get('transform') or ('EPSG:%s' % c['srs']) == self.grid.srs.srs_code:
+            return
+        import pyproj
+        tr = pyproj.Transformer.from_crs('EPSG:%s' % c['srs'], self.grid.srs.srs_code, always_xy=True)
+        x0, y0, x1, y1 = [float(v) for v in c['bbox']]
+        nx = 240
+        fr = [0.0, 0.01, 0.02, 0.04, 0.07, 0.1, 0.15, 0.2, 0.3, 0.4, 0.5, 0.6, 0.7, 0.8, 0.85, 0.9, 0.93, 0.96, 0.98, 0.99, 1.0]
+        src_x, src_y = [], []
+        for f in fr:
+            for i in range(nx + 1):
+                src_x.append(x0 + (x1 - x0) * i / nx)
+                src_y.append(y0 + (y1 - y0) * f)
+            for i in range(nx + 1):       # the same along the other axis
+                src_x.append(x0 + (x1 - x0) * f)
+                src_y.append(y0 + (y1 - y0) * i / nx)
+        px, py = tr.transform(src_x, src_y)
+        pts = [(a, b) for a, b in zip(px, py) if a == a and b == b and abs(a) < 1e12 and abs(b) < 1e12]
+        if not pts:
+            return
+        E = (min(p[0] for p in pts), min(p[1] for p in pts), max(p[0] for p in pts), max(p[1] for p in pts))
+        g = self.grid
+        res = [float(r) for r in g.resolutions]
+        gb = [float(v) for v in g.bbox]
+        tw, th = g.tile_size
+        handle_all, rule = spec.get('refresh_all', True), spec.get('cached')
+        pset = set()
+        for call in U.calls():
+            if call:
+                pset.add(geo.main_of(call))
+        d0 = res[0] / 10.0
+        mx, my = d0 + 0.003 * (E[2] - E[0]), d0 + 0.003 * (E[3] - E[1])
+        sizes = [gc.grid_size(l) for l in range(len(res))]
+        msz = [geo.meta_size(l) for l in range(len(res))]
+
+        def meta_of(p, l):
+            fx = (p[0] - gb[0]) / (res[l] * tw)
+            fy = ((gb[3] - p[1]) if gc.ul else (p[1] - gb[1])) / (res[l] * th)
+            tx, ty = math.floor(fx), math.floor(fy)
+            if not (0 <= tx < sizes[l][0] and 0 <= ty < sizes[l][1]):
+                return None, None
+            sx, sy = msz[l]
+            mxi, myi = tx // sx * sx, ty // sy * sy
+            # distance of the point to the border of the meta tile, in map units
+            ddx = min(fx - mxi, mxi + sx - fx) * res[l] * tw
+            ddy = min(fy - myi, myi + sy - fy) * res[l] * th
+            return (mxi, myi, l), min(ddx, ddy)
+        required = {}
+        for L in spec['levels']:
+            for p in pts:
+                if not (p[0] - E[0] > mx and E[2] - p[0] > mx and p[1] - E[1] > my and E[3] - p[1] > my):
+                    continue
+                ok, t = True, None
+                for l in range(L + 1):
+                    t, dist = meta_of(p, l)
+                    if t is None:
+                        ok = False
+                        break
+                    need = (res[l + 1] / 10.0 if l < L else 0.0) + 2.0 * res[L]      # 1/10 px of the next level (+ 2 px of L)
+                    if dist <= need:
+                        ok = False
+                        break
+                if ok and t not in required:
+                    required[t] = p
+        ctx.count('footprint_required_tiles', len(required))
+        for t, p in sorted(required.items()):
+            if not geo.expected_call(t, handle_all, rule):
+                continue
+            if t not in pset:
+                ctx.fail('coverage-footprint-tile-not-processed',
+                         'meta tile %r contains the point %r of the coverage %r (EPSG:%s, transformed point-wise with pyproj), well inside '
+                         'the tile and the footprint, but was never handed to the workers: the coverage was cut when it was '
+                         'brought into the grid SRS' % (t, (round(p[0], 1), round(p[1], 1)), c['bbox'], c['srs']),
+                         {'task': spec, 'tile': t, 'point': p, 'footprint_bbox': E,
+                          'walked_bbox': list(self.task.coverage.extent.bbox_for(self.grid.srs))})
+                return
 
     def same_srs(self):
         def srs_of(c):
@@ -1055,6 +1239,61 @@ def limit_cases(ctx):
 
 # ----------------------------------------------------------------------------- run
 
+def pool_cases(ctx):
+    """TileWorkerPool.process (the hand-over to the worker processes; not part of the Coq model): with a queue that is
+    full for a while and workers that are alive, the tile list must end up in the queue exactly once; with no worker left
+    SeedInterrupted is raised and nothing is put."""
+    import mapproxy.seed.seeder as sd
+    rng = ctx.rng
+    Full = sd.Queue.Full
+
+    class FakeQueue(object):
+        def __init__(self, plan):
+            self.plan, self.items, self.calls = list(plan), [], 0
+
+        def put(self, item, timeout=None):
+            self.calls += 1
+            if self.plan and self.plan.pop(0) == 'full':
+                raise Full()
+            self.items.append(item)
+
+    class FakeProc(object):
+        def __init__(self, alive):
+            self.alive = alive
+
+        def is_alive(self):
+            return self.alive
+
+    import logging
+    logging.getLogger('mapproxy.seed.seeder').setLevel(logging.ERROR)      # 'no workers left, stopping' is expected here
+    for _ in range(ctx.n(40, 300)):
+        nfull = rng.choice([0, 0, 1, 2, 5])
+        alive = [rng.random() < 0.7 for _ in range(rng.randrange(1, 4))]
+        if rng.random() < 0.2:
+            alive = [False] * len(alive)
+        pool = sd.TileWorkerPool.__new__(sd.TileWorkerPool)
+        pool.tiles_queue = FakeQueue(['full'] * nfull)
+        pool.task, pool.dry_run, pool.progress_logger = None, False, None
+        pool.procs = [FakeProc(a) for a in alive]
+        tiles = [(rng.randrange(9), rng.randrange(9), 3)]
+        try:
+            pool.process(tiles, None)
+            outcome = 'returned'
+        except sd.SeedInterrupted:
+            outcome = 'interrupted'
+        except Exception as e:  # noqa
+            outcome = 'raised %s' % type(e).__name__
+        ctx.case(('pool', nfull, tuple(alive)), nfull > 0)
+        want_items = [tiles] if (nfull == 0 or any(alive)) else []
+        want = 'returned' if want_items else 'interrupted'
+        if outcome != want or pool.tiles_queue.items != want_items:
+            ctx.fail('pool-loses-tiles',
+                     'TileWorkerPool.process with a queue that is full %d time(s) and workers alive=%r: %s, queue holds %r (expected %s with %r)'
+                     % (nfull, alive, outcome, pool.tiles_queue.items, want, want_items),
+                     {'queue_full_times': nfull, 'workers_alive': alive, 'tiles': tiles})
+            return
+
+
 def load_corpus():
     out = []
     if os.path.isdir(CORPUS):
@@ -1071,6 +1310,10 @@ def run(ctx):
     rng = ctx.rng
     can_skip_cases(ctx)
     limit_cases(ctx)
+    try:
+        pool_cases(ctx)
+    except Exception as e:  # noqa
+        ctx.problem('harness', 'pool oracle raised %r' % (e,))
     out = {'defs': [], 'tdefs': [], 'geo': [], 'tree': []}
     specs = []
     for fn, c in load_corpus():
@@ -1078,9 +1321,13 @@ def run(ctx):
         s = dict(s)
         s['corpus'] = fn
         specs.append(s)
-    for _ in range(ctx.n(26, 260)):
+    for _ in range(ctx.n(22, 230)):
         specs.append(gen_exact_spec(rng))
-    for _ in range(ctx.n(8, 70)):
+    for _ in range(ctx.n(4, 30)):
+        specs.append(gen_pyramid_spec(rng))
+    for _ in range(ctx.n(2, 16)):
+        specs.append(gen_bend_spec(rng))
+    for _ in range(ctx.n(7, 60)):
         try:
             specs.append(gen_real_spec(rng))
         except Exception as e:  # noqa
